@@ -93,7 +93,7 @@ AT = [{"name": "abscissas.at(k) -> abscissas[k]", "re": r"\b(abscissas|ordinates
 BODIES_A = [
     dict(name="area_row", file=T + "AreaComparison.cxx", pattern=r"static double trapezoidalIntegration\(.*?for (?=\(std::vector<double>::size_type i = 0;)", rules=AT),
     dict(name="area_decide", file=T + "AreaComparison.cxx", what="match",
-         pattern=r"areaValue /= maxValueA;.*?if \(areaValue > this->prec\) \{\s*s = false;\s*\}",
+         pattern=r"areaValue /= maxValueA;.*?if \(areaValue[^{;]*\{\s*s = false;\s*\}",
          rules=[{"name": "members", "re": r"this->prec\b", "sub": "prec", "min": 1, "max": 1}]),
 ]
 JOBS += [Job("area_row", "area.c.in", enforce="area_row", bodies=BODIES_A, min_obligations=2, backend=FP, needs=["area_row"],
